@@ -48,6 +48,7 @@ type opSpec struct {
 	Flags int  `json:"flags,omitempty"` // 1 secret, 2 crown jewel
 	Iface int  `json:"iface,omitempty"` // 0 privileged interface, 1 interface that is neither local nor internal
 	Fail  bool `json:"fail,omitempty"`
+	TTL   int  `json:"ttl,omitempty"` // relative expiry in seconds (0: none), kept in the record's metadata
 }
 
 var keyPool = []string{"a/1", "a/2", "b/1", "b/2", "c"}
@@ -179,6 +180,7 @@ type srec struct {
 	Secret  bool
 	Crown   bool
 	Deleted bool
+	TTL     int64 // relative expiry kept in the metadata (0: none)
 }
 
 func (r *srec) permits(local, internal bool) bool {
@@ -190,7 +192,7 @@ func (r *srec) payload() []byte {
 }
 
 func (r srec) String() string {
-	return fmt.Sprintf("{V=%d S=%s Q=%d secret=%v crown=%v deleted=%v}", r.V, r.S, r.Q, r.Secret, r.Crown, r.Deleted)
+	return fmt.Sprintf("{V=%d S=%s Q=%d secret=%v crown=%v deleted=%v ttl=%d}", r.V, r.S, r.Q, r.Secret, r.Crown, r.Deleted, r.TTL)
 }
 
 // qreg is a query object with the data it was built from.
@@ -282,6 +284,9 @@ func readLocked(r record.Record) (srec, bool) {
 	var out srec
 	if m := r.Meta(); m != nil {
 		out.Deleted = m.IsDeleted()
+		if m.Deleted < 0 {
+			out.TTL = -m.Deleted
+		}
 		out.Secret = !m.CheckPermission(true, false)
 		out.Crown = !m.CheckPermission(false, true)
 	}
@@ -451,6 +456,9 @@ func readConfigLocked(r record.Record) (srec, bool) {
 	out := srec{V: -1, Q: -1}
 	if m := r.Meta(); m != nil {
 		out.Deleted = m.IsDeleted()
+		if m.Deleted < 0 {
+			out.TTL = -m.Deleted
+		}
 		out.Secret = !m.CheckPermission(true, false)
 		out.Crown = !m.CheckPermission(false, true)
 	}
@@ -799,7 +807,7 @@ func (e *env) regFor(op opSpec) (*qreg, bool) {
 
 func (e *env) newRec(op opSpec) srec {
 	e.nextQ++
-	return srec{V: int64(op.V % 10), S: fmt.Sprintf("s%d", op.S%3), Q: e.nextQ, Secret: op.Flags&1 != 0, Crown: op.Flags&2 != 0}
+	return srec{V: int64(op.V % 10), S: fmt.Sprintf("s%d", op.S%3), Q: e.nextQ, Secret: op.Flags&1 != 0, Crown: op.Flags&2 != 0, TTL: int64(op.TTL)}
 }
 
 func (e *env) exec(op opSpec) {
@@ -888,6 +896,9 @@ func (e *env) exec(op opSpec) {
 		}
 		cur := e.newRec(op)
 		w := newWrapper(e.full(k), cur.payload(), cur.Secret, cur.Crown)
+		if cur.TTL > 0 {
+			w.Meta().SetRelativateExpiry(cur.TTL)
+		}
 		w.UpdateMeta()
 		e.nPush++
 		e.modelNotify(k, cur)
@@ -933,6 +944,12 @@ func (e *env) exec(op opSpec) {
 		db, local, internal, name := e.iface(op.Iface)
 		cur := e.newRec(op)
 		w := newWrapper(e.full(k), cur.payload(), cur.Secret, cur.Crown)
+		if cur.TTL > 0 {
+			w.Meta().SetRelativateExpiry(cur.TTL)
+			if op.Kind == "putnew" {
+				cur.TTL = 0 // PutNew stores the record "as a new record": it resets the times kept in the metadata
+			}
+		}
 		// interface pre-check (no hooks): an interface lacking a privilege may not overwrite a record it cannot see
 		if st := e.store[k]; st != nil && !st.Deleted && !st.permits(local, internal) {
 			var err error
@@ -975,6 +992,7 @@ func (e *env) exec(op opSpec) {
 		if !want.failed() {
 			stored = want.rec
 			stored.Deleted = true
+			stored.TTL = 0 // the deletion time takes the place of the relative expiry in the metadata
 			if e.p.backend == beHashmap && stats.Excl("c14.hashmap_delete_veto") && e.wouldVetoPrePut(k, stored) {
 				// open finding: excluded input class (see known-findings)
 				stats.Excluded("c14.hashmap_delete_veto")
